@@ -59,7 +59,8 @@ def _reparse_raw_base(
 ) -> fst.FST:
     """Actually do the reparse. If `mode` is `None` then will just try a normal `'exec'` parse and fail if that fails.
     Otherwise it will try this mode first, then all other parse modes as it is assumed to be a non-top-level
-    statementlike thing being reparsed."""
+    statementlike thing being reparsed. The other parse modes are not tried if the root is a `mod` (`Module`,
+    `Expression` or `Interactive`) as that can only hold source of its own kind and must not change to something else."""
 
     copy_root = fst.FST(Pass(), copy_lines, None, lcopy=False)  # we don't need the ASTs here, just the lines
 
@@ -71,7 +72,7 @@ def _reparse_raw_base(
         copy_root = fst.FST.fromsrc(copy_root.src, mode or 'exec', **root._parse_params)
 
     except (SyntaxError, NodeError):
-        if mode is None or path:  # if there is a path then we expect the top level node to parse to the same thing successfully, if it does not then it is a genuine error
+        if mode is None or path or isinstance(root.a, mod):  # if there is a path then we expect the top level node to parse to the same thing successfully, if it does not then it is a genuine error, likewise a `mod` root can only ever be source of its own kind
             raise
 
         try:
